@@ -306,12 +306,14 @@ theorem deliver_marked (sp : ReqSt) (m : List Byte) (rid : Nat) (hw : sp.w ≠ 0
   | none => rfl
   | some p => obtain ⟨a, t⟩ := p; rfl
 
+theorem followUp_none (s : St) (t : Nat) : followUp noFollow s t = s := rfl
+
 theorem rel_syncLoop (fails : Nat → Bool) (q : List (List Byte)) (x : St) (sp : ReqSt) (n : Nat) (lm : List Call)
     (ls : List (Option Nat × List Byte)) (fuel : Nat) (h : Rel0 x sp) (hn : n = sp.pending.length) (hw : x.idlen ≠ 0)
     (hfuel : q.length < fuel) (hl : lm.map callS = ls) :
-    (syncLoop fails q x n lm).2.1.map callS = (awaitReplies fails fuel q sp ls).2 ∧
-    Rel0 (syncLoop fails q x n lm).1 (awaitReplies fails fuel q sp ls).1 ∧
-    (awaitReplies fails fuel q sp ls).1.inq = (syncLoop fails q x n lm).1.inq := by
+    (syncLoop fails noFollow q x n lm).2.1.map callS = (awaitReplies fails fuel q sp ls).2 ∧
+    Rel0 (syncLoop fails noFollow q x n lm).1 (awaitReplies fails fuel q sp ls).1 ∧
+    (awaitReplies fails fuel q sp ls).1.inq = (syncLoop fails noFollow q x n lm).1.inq := by
   induction q generalizing x sp n lm ls fuel with
   | nil =>
     cases fuel with
@@ -387,6 +389,11 @@ theorem rel_syncLoop (fails : Nat → Bool) (q : List (List Byte)) (x : St) (sp 
                 omega
               have e : m.drop sp.w = m.drop x.idlen := by rw [h.w]
               rw [e]
+              have hact : (active ((x.arr.map (deactivate · rid)).getD [])).length = k := by
+                have hp := hrel.pending
+                simp only [] at hp
+                rw [hcount, hp]; simp [pendingOf]
+              simp only [followUp_none, hact]
               by_cases hfl : fails t = true
               · simp only [hfl, if_true]
                 exact ⟨by rw [List.map_append, hl]; simp [callS], hrel.setInq ms, by first | rfl | trivial⟩
@@ -421,8 +428,8 @@ theorem pendingOf_active (es : List Slot) : pendingOf (active es) = pendingOf es
 /-- `sync`: the same handler calls as "take replies while a request is outstanding", states stay related
     (the compaction of the handler array is invisible to the spec) -/
 theorem rel_sync (fails : Nat → Bool) (x : St) (sp : ReqSt) (fuel : Nat) (h : Rel x sp) (hf : x.inq.length < fuel) :
-    (sync fails x).2.map callS = (awaitReplies fails fuel sp.inq sp []).2 ∧
-    Rel (sync fails x).1 (awaitReplies fails fuel sp.inq sp []).1 := by
+    (sync fails noFollow x).2.map callS = (awaitReplies fails fuel sp.inq sp []).2 ∧
+    Rel (sync fails noFollow x).1 (awaitReplies fails fuel sp.inq sp []).1 := by
   have hq : sp.inq = x.inq := h.inq
   rw [hq]
   unfold sync
